@@ -5,14 +5,16 @@ files / a directory / a symlink with non-ASCII names, optionally "late" revision
 source only after the target was seeded), a format pair {2a, pack-0.92}^2, how source and target
 are reached (local, or an in-process smart server: SmartTCPServer in a thread, bzr://), an
 optional fallback (stacked 2a target), the revisions pre-seeded into the target, revisions the
-target has and the source lacks, and the operation: Repository.fetch(find_ghosts False/True),
-Branch.pull or Branch.push of a revision -- executed twice.
+target has and the source lacks, and the operation: Repository.fetch(revision, find_ghosts
+False/True), Repository.fetch() of everything, Branch.pull, Branch.push, or ControlDir.sprout into
+a new location -- followed by the same fetch again.
 
 The model (coq/Model/RepoFetch.v) predicts, per step: outcome, number of revisions copied, and
 exactly which revision / inventory / text keys the target holds afterwards.  The oracle checks the
 property itself: every required ancestor present, testaments (plain and strict3) and per-file
-parents identical to the source's, check() clean, nothing lost, the second fetch copies nothing
-and leaves pack-names unchanged, failing calls leave the repository unchanged.
+parents, text contents and signatures identical to the source's, every revision readable, check()
+clean, nothing lost, no record stored twice, the second fetch copies nothing and leaves pack-names
+unchanged, failing calls leave the repository unchanged.
 """
 from props import _c03_common as C
 import daglib
@@ -96,6 +98,13 @@ def corpus():
     out.append(_case(U_A, seed=[3], r=48, extra=[48], fg=True))
     out.append(_case(U_A, "2a", "pack-0.92", seed=[7]))    # nothing missing: no incompatibility error
     out.append(_case(U_B, seed=[1], r=6, entry="pull"))
+    out.append(_case(U_B, seed=[1], r=0, entry="all"))
+    out.append(_case(U_A, fb=[2], r=0, entry="all", fg=True))
+    out.append(_case(U_A, "pack-0.92", "2a", seed=[3], r=0, entry="all"))
+    for sf, tv in (("2a", "local"), ("pack-0.92", "smart")):
+        c = _case(U_B, sf, sf, "local", tv, r=5, entry="sprout")
+        c["ops"][1][3] = "fetch"
+        out.append(c)
     return out
 
 
@@ -147,6 +156,13 @@ def _random_case(rng, u, pairs=FMT_PAIRS):
     if r < n and not late and daglib.lefthand_present(g, r) and not (sf == "2a" and tf != "2a") and rng.random() < 0.4:
         entry = rng.choice(["pull", "push"])
         fg = False
+    x = rng.random()
+    if x < 0.08:
+        entry = "all"
+    elif x < 0.16 and sf == tf and r < n and daglib.lefthand_present(g, r) and not late:
+        c = _case(u, sf, tf, sv, tv, None, [], [], r, fg, "sprout")
+        c["ops"][1][3] = "fetch"
+        return c
     return _case(u, sf, tf, sv, tv, fb, seed, extra, r, fg, entry)
 
 
@@ -203,7 +219,7 @@ def _walk_gap(case, obs):
     state = obs["model"]["pre"]
     for k, (op, st) in enumerate(zip(case["ops"], obs["model"]["steps"])):
         vis = set(state[0]) | zf
-        if op[0] == "fetch" and not op[2] and op[1] < n and op[1] not in vis:
+        if op[0] == "fetch" and op[3] != "all" and not op[2] and op[1] < n and op[1] not in vis:
             need = C.reach_avoiding(g, vis, op[1])
             haves = C.anc_present(g, set(), [op[1]]) & vis
             behind = C.anc_present(g, set(), haves)
@@ -235,7 +251,10 @@ def oracle(case, obs):
             bad.append("step %d: leftovers in upload/" % k)
         if out == "ok":
             r, fg = op[1], op[2]
-            required = C.anc_present(g, set(), [r]) if fg else C.reach_avoiding(g, vis_before, r)
+            if op[3] == "all":
+                required = set(range(n))
+            else:
+                required = C.anc_present(g, set(), [r]) if fg else C.reach_avoiding(g, vis_before, r)
             miss = sorted(required - vis_after)
             if miss:
                 bad.append("step %d: missing_required %r" % (k, miss))
@@ -252,6 +271,8 @@ def oracle(case, obs):
             bad.append("step %d: text_bad %r" % (k, so["text_bad"][:3]))
         if so["sig_bad"]:
             bad.append("step %d: sig_bad %r" % (k, so["sig_bad"][:5]))
+        if so["dup"]:
+            bad.append("step %d: records stored twice %r" % (k, so["dup"]))
         if so["unreadable"]:
             bad.append("step %d: unreadable %r" % (k, so["unreadable"][:4]))
         if so["check"]:
